@@ -9,17 +9,17 @@ CLAIMED = {
     "C04": ("exploration",
             "attribution oracle inside handlers (Src identity and LookupPublicKeyInHandler vs the true sender's key) under honest traffic and concrete adversaries (SSH auth interleaver, raw P2PKE on-path attacker, wrong-identity addresses, rejected peers)",
             "Six-node all-pairs traffic on every secure stack with the source's key looked up inside each callback; identity-of-X-at-transport-of-Y addresses must fail and never reach Y; an SSH client interleaves key queries for a victim's key with a real authentication (31 orderings); a raw Noise/P2PKE peer with its own key answers a victim-addressed InitHello and injects handshakes/data at an established peer's transport address across a rekey; whitelists of p2pkeswarm, quicswarm and wlswarm face telling and asking rejected peers.",
-            "TLS's CertificateVerify is trusted for QUIC (no raw certificate-claiming client); adversaries are the concrete catalogue.",
+            "TLS's CertificateVerify itself is trusted for QUIC; which certificate of a chain and which of its fields the identity is taken from is exercised by a raw TLS peer (client and dialled server) with five claiming chains; a lookup that returns no key is counted, not judged; adversaries are the concrete catalogue.",
             "DESIGN.md §4 C04"),
     "C08": ("exploration",
             "crash oracle: in-process panic capture for synchronous entry points, child-process death (inputs logged to disk before delivery) for layers running in library goroutines, plus a liveness probe after each batch",
             "Hundreds of thousands of hostile inputs per run: random, structure-aware field mutations of genuine packets, contradiction sequences against reassembly state and byte-level mutations, fed to address/key/peer-id parsers, the five demultiplexers, P2PKE sessions in every handshake state and role, channels with 0-3 occupied slots, DHT handlers and cache calls, and through the harness's wire transport to fragswarm, mbapp (tell/ask/reply paths), multiplexers and p2pkeswarm; each layer must still pass a valid message afterwards.",
-            "The QUIC frame reader is exercised only through honest traffic in other checks (no raw hostile QUIC client was built); constructor/configuration panics are not judged.",
+            "quicswarm faces a raw hostile quic-go client and a raw hostile quic-go server, sshswarm a raw hostile x/crypto/ssh client; runtime-fatal errors (out of memory, ...) count as crashes; constructor/configuration panics are not judged; in the race pass the single-goroutine phases get an eighth of the inputs.",
             "DESIGN.md §4 C08"),
     "C14": ("exploration",
             "Go race detector (-race, reports parsed, de-duplicated and classified by access site) over high-contention workloads + buffer-ownership canary in every callback",
             "The -race build runs, per stack, the ledger tell workload with replies from inside callbacks while other goroutines hammer LocalAddrs/MTU/ParseAddr/PublicKey/LookupPublicKey and Close races everything, the ask workload, and DHTNode/Cache calls from 8 goroutines; every callback checksums its buffer at entry and exit and scribbles it, and the ledger shows whether old contents ever surface.",
-            "Only executed interleavings are seen; reports with both access sites outside the library are recorded as external; a report whose sites are both in the harness fails the check as broken.",
+            "Only executed interleavings are seen; a report is the library's when an access site is in the library, or when a harness access to memory the API says is the harness's races with an access made under library frames (even if the copy happens in a third-party package); reports with no library involvement are recorded as external; a report whose sites are both in the harness fails the check as broken.",
             "DESIGN.md §4 C14"),
     "C12": ("exploration",
             "lifecycle monitor: parked-goroutine detector on Close / blocked calls / post-close calls, causal epoch check for deliveries after Close, goroutine-set difference for leaks",
@@ -39,12 +39,12 @@ CLAIMED = {
     "C09": ("exploration",
             "boundary-length workload per stack configuration with a ledger at the receiver and an MTU-error recorder under the layer under test",
             "For ~150 stack configurations (inner MTUs 1..65536, outer MTUs at/around the 255- and 65535-part limits, every multiplexer header length, unequal multi-transport MTUs, nestings; QUIC/SSH in thorough) tells and asks of lengths 0,1,MTU-1,MTU and fragment-count boundaries must not be refused for size by any layer and arrive byte-identical, while MTU+1 and 2*MTU must be refused with the MTU error and never arrive even in part.",
-            "A <=MTU payload that is never delivered is reported as a coverage gap unless the recorder shows the inner MTU error was swallowed on every attempt; inner MTUs <= the layer's header size are not exercised.",
+            "A <=MTU payload that is never delivered is reported as a coverage gap unless the recorder shows the inner MTU error was swallowed on every attempt, or (quic, ssh) a control of half the length goes through every time over the same connection while the boundary length never does; inner MTUs <= the layer's header size are not exercised.",
             "DESIGN.md §4 C09"),
     "C01": ("exploration",
             "ledger monitor (sha256 lookup of unique self-describing payloads) inside receiver callbacks on every swarm stack, with buffer canaries and injected delays; thorough adds a -race pass",
             "All-pairs concurrent traffic on every stack and nesting; each delivered payload must be one told to this receiver, Src must name the teller and Dst the receiver; callback buffers are checksummed and scribbled, sender buffers compared and overwritten after Tell, replies go to the observed Src (also from inside the callback), some Tells carry deadlines that expire mid-write.",
-            "Losses and duplicates are counted, not judged; QUIC/SSH stacks only in the thorough tier; ssh source ports are ephemeral so identity+IP decide there.",
+            "Losses and duplicates are counted, not judged; in the quick tier quicswarm runs only in its skewed-MTU configuration and sshswarm once, everything else of QUIC/SSH in the thorough tier; transport queues of 2-16 buffers, MTU-skewed peers and wrong-identity tells on identity-bearing stacks are part of both tiers; ssh source ports are ephemeral so identity+IP decide there.",
             "DESIGN.md §4 C01"),
     "C05": ("exploration",
             "state/ledger oracle on a victim Channel against honest peers and a raw attacker, plus encryption-site hook events",
@@ -54,7 +54,7 @@ CLAIMED = {
     "C07": ("fault_enumeration",
             "enumerated prefix scripts over a harness-owned network between real Channels; verdicts on a logical clock (quiescent retransmission rounds) and confirmed quiescence, not wall-clock",
             "Every script over {deliver, drop, duplicate, hold-and-swap} up to length k, crossed with first-Send timing and peer restart points, then reliable delivery: a Send pending after K=10 quiescent retransmission rounds, or pending while nothing is in flight and no handshake timer is armed for 1 s, is a violation; then traffic must flow both ways. Plus rotation (6 rekey periods of two-way traffic), expiry and data-overtakes-RespDone families.",
-            "K=10 rounds is the harness's reading of 'small bounded number'; three restart-mid-handshake histories are listed as open known findings; rotation/expiry families run only in the plain (non-race) pass.",
+            "K=10 rounds is the harness's reading of 'small bounded number'; three restart-mid-handshake failure states are listed as open known findings, each with a bound on how many enumerated histories may end that way per run (more is reported as <sig>/more-than-recorded); rotation, idle-expiry and expiry families run only in the plain (non-race) pass; a timer whose callback is executing counts as pending.",
             "DESIGN.md §4 C07"),
     "C13": ("exploration",
             "offline trace-specification checker over boundary-recorded histories (rendezvous spec, conservation) + porcupine bag model for the queue + parked-goroutine detector for cancellation",
@@ -89,12 +89,12 @@ CLAIMED = {
     "C16": ("exploration",
             "runtime round-trip oracle over generated and hostile address texts for every address type path",
             "Marshals and re-parses generated addresses of every address type and nesting (depth 3) with the same swarm's parser and feeds mutated/hostile texts; held = every produced address parsed back equal and every accepted hostile text was stable.",
-            "Scheme names restricted to the scheme://inner grammar; equality is reflect.DeepEqual plus equal re-marshalled text.",
+            "Scheme names restricted to the scheme://inner grammar; equality is reflect.DeepEqual plus equal re-marshalled text; accepted texts with a canonical decimal port must come back with that very port (leading-zero / prefixed spellings are not judged: udpswarm reads 00022 as octal).",
             "DESIGN.md §4 C16"),
     "C18": ("exploration",
             "reference-model monitor after every operation (bounded exhaustive BFS + long random sequences) + porcupine linearizability of concurrent histories",
             "Every cache operation is mirrored on a reference map; Count, invariant walker, full enumeration, lookups, added/evicted reports and the eviction bucket are compared after every operation, exhaustively over short sequences on a small universe and randomly over long ones; thorough adds concurrent histories checked with porcupine.",
-            "Delete's result for absent keys and the choice inside the eviction bucket are not asserted; VerifCheck runs under the cache's own lock (verif tag).",
+            "Delete's / RemovePeer's result for absent keys and the choice inside the eviction bucket are not asserted; value slices are stored as given (not the caller's to overwrite), key and info buffers are overwritten by the harness after every call; VerifCheck runs under the cache's own lock (verif tag).",
             "DESIGN.md §4 C18"),
     "C19": ("exploration",
             "brute-force distance oracle over cache states and query keys; exhaustive comparison laws for short strings",
